@@ -19,7 +19,10 @@ RULE = ('a case is a SEQUENCE of 2-4 snapshots of one live ResourceMap: a random
         'of the probes of a later stage go to an older snapshot): 4-8 paths per stage walked '
         'part by part with attribute access, [] and get on the snapshot, compared with the '
         "map's answer at THAT snapshot's time, and 1-2 setattr/delattr attempts followed by a "
-        'full structural dump; non-trivial = at least two snapshots with a modification below '
+        'full structural dump; in 2 of 3 cases a third of the handles are Handle subclasses '
+        'whose __call__ is overridden (post-processing the cached resource, a new object per '
+        'call): their resource must be the result of the one call made by that access, on '
+        'the snapshot as on the map; non-trivial = at least two snapshots with a modification below '
         'the root in between and an attempted mutation')
 TRUSTED = [
     'Coq 8.16.1 kernel + vm_compute (evaluation of C17_verdict on the observed cases)',
@@ -216,7 +219,8 @@ def gen_case(rng):
                 i = rng.randrange(j)
                 probes += gen_probes(rng, hist[i], 1, 1 if rng.random() < 0.3 else 0, i)
         stages.append({'mods': mods, 'probes': probes})
-    return dict(tree=tree, nh=counter[0], stages=stages)
+    return dict(tree=tree, nh=counter[0], stages=stages,
+                salt=rng.choice([None, 0, 1, 2, 0, 1]))
 
 
 def gen(rng, tier):
@@ -225,6 +229,33 @@ def gen(rng, tier):
 
 
 # ---------------------------------------------------------------------- runner
+CALLS = []          # every invocation of an overriding __call__, in order
+
+
+class Wrapped:
+    """what an overriding Handle.__call__ returns: a new object per call"""
+    def __init__(self, owner, raw):
+        self.owner = owner
+        self.raw = raw
+
+
+def make_hot_class(Hd):
+    class Hot(Hd):
+        """a Handle subclass whose __call__ post-processes the cached resource
+        (hot reload / validation style): super().__call__() caches, the result
+        of every call is a new object"""
+        def __call__(self):
+            w = Wrapped(self, super().__call__())
+            CALLS.append(w)
+            return w
+    return Hot
+
+
+def is_hot(case, i):
+    salt = case.get('salt')
+    return salt is not None and (i * 7 + salt) % 3 == 0
+
+
 def build_map(t, handles, Hd):
     import desper
     m = desper.ResourceMap()
@@ -247,9 +278,17 @@ def read_map(m, hid):
             's': [[k, read_map(v, hid)] for k, v in m.maps.items()]}
 
 
-def classify(r, hid):
+def classify(r, hid, fresh=()):
     import desper
+    if isinstance(r, Wrapped):
+        # the resource of an overriding handle: it must be the result of the
+        # one call of the handle made by this very access
+        if len(fresh) == 1 and fresh[0] is r:
+            return ['V', hid(r.owner)]
+        return 'B'
     if isinstance(r, tc.Token):
+        if hasattr(r.owner, '__call__') and type(r.owner).__name__ == 'Hot':
+            return 'B'                   # the raw cache: __call__ was bypassed
         return ['V', hid(r.owner)]
     if isinstance(r, desper.Handle):
         return ['H', hid(r)]
@@ -262,6 +301,7 @@ def walk_map(m, mode, p, hid):
     import desper
     cur = m
     default = object()
+    n0 = len(CALLS)
     for k in p:
         if not isinstance(cur, desper.ResourceMap):
             return 'X'
@@ -276,12 +316,13 @@ def walk_map(m, mode, p, hid):
             return 'A'
         except Exception:
             return 'B'
-    return classify(cur, hid)
+    return classify(cur, hid, CALLS[n0:])
 
 
 def walk_snap(s, mode, p, hid):
     import desper
     cur = s
+    n0 = len(CALLS)
     for k in p:
         if not isinstance(cur, desper.StaticResourceMap):
             return 'X'
@@ -296,7 +337,7 @@ def walk_snap(s, mode, p, hid):
             return 'A'
         except Exception:
             return 'B'
-    return classify(cur, hid)
+    return classify(cur, hid, CALLS[n0:])
 
 
 def dump_snap(s, hid, depth=0):
@@ -355,7 +396,12 @@ def apply_mod(m, mod, Hd, handles, ids):
 
 def run(case):
     import desper
-    Hd = tc.make_handle_class()
+    Hd0 = tc.make_handle_class()
+    Hot = make_hot_class(Hd0)
+    del CALLS[:]
+
+    def Hd(i):
+        return (Hot if is_hot(case, i) else Hd0)(i)
     built = {}
     m = build_map(case['tree'], built, Hd)
     handles = [built[i] for i in sorted(built)]
